@@ -13,24 +13,6 @@ import (
 //verif:bounds C06 HC06_structure: ElectreIII end to end (credibility matrix, both distillations, final preorder) with symbolic criterion values: A<=3 alternatives with K=1 or A<=2 with K=2 in the quick tier (A<=3, K<=2 and A=4, K=1 in the thorough tier), gain and cost criteria, all six threshold shapes (none, q, p, q+p, p+v, q+p+v) with concrete constants, weights k in {1,2}; obligations: (a) if a is at least as good as b on every criterion then asc(a)<=asc(b), desc(a)<=desc(b) and a lists b; (b) identical values give identical indices and mutual links; (c) the same alternatives listed in another order (every permutation) get the same indices and link sets; (d) multiplying every weight k by 2, 4 or 1/2 leaves every index unchanged
 //verif:outside C06: symbolic thresholds and weights together with symbolic values (nonlinear; the single monotonicity lemma was already unknown at K=3 in the design probe); K>=3; (d) is proved over the reals for the listed factors, the bit-exactness under float64 that the power-of-two restriction buys is not re-proved
 
-func c06criteria(crit model.Criteria, shape string, kscale float64) ElectreCriteria {
-	ec := ElectreCriteria{}
-	for i, c := range crit {
-		e := ElectreCriterion{K: []float64{1, 2, 1}[i] * kscale}
-		if shape == "q" || shape == "qp" || shape == "qpv" {
-			e.Q = utils.LinearFunctionParameters{B: 0.5}
-		}
-		if shape == "p" || shape == "qp" || shape == "pv" || shape == "qpv" {
-			e.P = utils.LinearFunctionParameters{B: 1.5}
-		}
-		if shape == "pv" || shape == "qpv" {
-			e.V = utils.LinearFunctionParameters{B: 3}
-		}
-		ec[c.Id] = e
-	}
-	return ec
-}
-
 func c06entry(r *model.AlternativesRanking, id string) (ElectreIIIEvaluation, []string) {
 	k := vh.IndexOf(r, id)
 	return (*r)[k].Evaluation.(ElectreIIIEvaluation), []string((*r)[k].BetterThanOrSameAs)
